@@ -1,6 +1,7 @@
 import QF.Drv.Parse
 import QF.Spec.Num
 import QF.Drv.Hist
+import QF.Props.C14Quote
 /-
 Driver section "ryu": the float formatter.
 Spec (C16): output = buffer prefix ++ text, where text is the shortest positional decimal that parses back to the
@@ -63,6 +64,24 @@ def ryuLine (toks : Array String) : List Msg :=
         let bits := UInt64.ofNat bn &&& 0x7fffffffffffffff
         if Num.ofDecimal false m e == bits then [{ cls := "OK", op := "ryudec", kind := "", detail := "" }]
         else [{ cls := "SPEC-MISMATCH", op := "ryudec", kind := "decimal", detail := s!"float {b}: core decimal {m}e{e} does not parse back to it" }]
+  | _ => []
+
+/-- Section "quote": AppendQuotedString against its mirror (exact bytes) and against the RFC 8259 string parser
+(the token must decode to the string with invalid bytes replaced by U+FFFD). -/
+def quoteLine (toks : Array String) : List Msg :=
+  match toks[0]? with
+  | some "QS" =>
+    match runP (do let s ← bytes; let o ← bytes; let p ← bytes; return (s, o, p)) toks 1 with
+    | .error e => [{ cls := "DRIVER-ERROR", op := "quote", kind := "parse", detail := e }]
+    | .ok (s, out, pre) =>
+      let tok := out.drop pre.length
+      let specOk := out.take pre.length == pre && tok.head? == some 34 &&
+        Json.parseStr (tok.length + 1) (tok.drop 1) [] == some (Json.sanitize s, [])
+      if !specOk then
+        [{ cls := "SPEC-MISMATCH", op := "quote", kind := "token", detail := s!"string {repr s} written as {repr (bytesToString tok)}: not a JSON string token denoting it" }]
+      else if tok != QF.Props.C14.appendQuoted s then
+        [{ cls := "MIRROR-MISMATCH", op := "quote", kind := "bytes", detail := s!"string {repr s}: implementation {repr (bytesToString tok)}, mirror {repr (bytesToString (QF.Props.C14.appendQuoted s))}" }]
+      else [{ cls := "OK", op := "quote", kind := "", detail := "" }]
   | _ => []
 
 end QF.Drv
